@@ -219,3 +219,47 @@ Fixpoint ptrace {V} (st : list V) (h : list pop) : list (list V * option (list V
   | [] => []
   | o :: r => (pstep st o, pret st o) :: ptrace (pstep st o) r
   end.
+
+(* Arc.get_next_intersection as a function of abstract geometry (what the translated code, Gen/GenC17imp.v, is proved
+   equal to): isect = Arc.intersection, keep = the two `!=` end-point tests, sort_res = sorted(res, key=dist),
+   peq = SCoordinate.__eq__. *)
+Section NextSpec.
+  Context {P ARC : Type} (isect : ARC -> ARC -> option P) (keep : ARC -> ARC -> P -> bool)
+          (sort_res : ARC -> list (P * ARC) -> list (P * ARC)) (peq : P -> P -> bool).
+  Definition gni_res (self : ARC) (arcs : list ARC) : list (P * ARC) :=
+    flat_map (fun arc => match isect self arc with
+                         | Some x => if keep self arc x then [(x, arc)] else []
+                         | None => []
+                         end) arcs.
+  Fixpoint gni_find (known : option P) (take_next : bool) (l : list (P * ARC)) : option (P * ARC) :=
+    match l with
+    | [] => None
+    | e :: r =>
+        match known with
+        | None => Some e
+        | Some k => if peq k (fst e) then gni_find known true r
+                    else if take_next then Some e else gni_find known take_next r
+        end
+    end.
+  Definition gni (self : ARC) (arcs : list ARC) (known : option P) : option P * option ARC :=
+    match gni_find known false (sort_res self (gni_res self arcs)) with
+    | Some e => (Some (fst e), Some (snd e))
+    | None => (None, None)
+    end.
+End NextSpec.
+
+(* the abstract geometry of [gni] instantiated with the crossing table of the walk: arcs are edge indices of the other
+   polygon, points are table rows *)
+Section TableInst.
+  Context {T : Type} (OP : ops T) (A : @arrangement T) (side : bool).
+  (* sorted(res, key=dist) on (crossing, other edge) pairs: stable insertion sort on the crossing's distance *)
+  Fixpoint insert_pair (p : @xing T * Z) (l : list (@xing T * Z)) : list (@xing T * Z) :=
+    match l with
+    | [] => [p]
+    | q :: r => if ltb OP (xd side (fst p)) (xd side (fst q)) then p :: l else q :: insert_pair p r
+    end.
+  Definition sort_pairs (l : list (@xing T * Z)) : list (@xing T * Z) := fold_right insert_pair [] l.
+  Definition tab_isect (e eo : Z) : option (@xing T) := find_xing A side e eo.
+  Definition tab_keep (e eo : Z) (x : @xing T) : bool := true.      (* the table holds the crossings that passed the tests *)
+  Definition tab_peq (k x : @xing T) : bool := xid x =? xid k.
+End TableInst.
